@@ -39,7 +39,7 @@ Fixpoint scoped (avail : list Z) (p : prog) : bool :=
   end.
 
 (* errors as the harness can tell them apart: errors.Is class + "is not the sentinel itself" *)
-Inductive ecode := EUser (n : Z) | EFault | ETxDone | EInvalidTx | ENoSp | EOther.
+Inductive ecode := EUser (n : Z) | EFault | ETxDone | EInvalidTx | ENoSp | EUnsupported | EOther.
 Record err := mkErr { e_code : ecode; e_wrapped : bool }.
 Inductive cls := CNil | CErr (e : err) | CPanic (p : Z).
 
@@ -52,7 +52,8 @@ Inductive obs :=
 | OC (entered : bool) (body : list obs) (exit ret : cls).
 
 Inductive opkind := KBegin | KSave | KRbTo | KStmt | KCommit | KRollback.
-Record cfg := mk_cfg { c_prep : bool; c_nonest : bool; c_skipdef : bool; c_report : bool }.
+(* c_nosp: the dialector does not implement SavePointerDialectorInterface (no save points) *)
+Record cfg := mk_cfg { c_prep : bool; c_nonest : bool; c_skipdef : bool; c_report : bool; c_nosp : bool }.
 
 (* ------------------------------------------------------------------ environment *)
 Definition tbl := list Z.
@@ -188,6 +189,9 @@ Definition exec_sp (save : bool) (n : spname) (h : option err) (s : st) : option
 (* finisher_api.go SavePoint / RollbackTo: db.AddError(dialector result) ON THE RECEIVER;
    the stock SQLite dialector returns nil whatever Exec reported *)
 Definition h_sp (save : bool) (n : spname) (h : option err) (s : st) : option err * st :=
+  if c_nosp C then   (* } else { db.AddError(ErrUnsupportedDriver) }: nothing is sent *)
+    (add_error h (Some (mkErr EUnsupported false)), s)
+  else
   let '(d, s1) := exec_sp save n h s in
   if c_report C then (add_error h d, s1)
   else (h, match d with Some _ => flag_drop s1 | None => s1 end).
